@@ -25,9 +25,25 @@ from harness import enumhs as E
 from harness.sexp import Sym
 
 HERE = os.path.dirname(os.path.abspath(__file__))
-# recursive grammars yield programs that are hundreds of levels deep (unary chains): the default limit of
-# 1000 frames is hit by the implementation's own recursive hashing / printing and by the S-expression reader
-sys.setrecursionlimit(max(sys.getrecursionlimit(), 20000))
+
+
+def deep(fn):
+    """recursive grammars yield programs that are hundreds of levels deep (unary chains): the default limit of
+    1000 frames is hit by the implementation's own recursive hashing / printing and by the S-expression
+    reader.  The limit is raised for the duration of one check of this part only (other parts of the same
+    property run in the same process and have their own conventions)."""
+    import functools
+
+    @functools.wraps(fn)
+    def wrapper(*a, **k):
+        old = sys.getrecursionlimit()
+        sys.setrecursionlimit(max(old, 20000))
+        try:
+            return fn(*a, **k)
+        finally:
+            sys.setrecursionlimit(old)
+    return wrapper
+
 MAX_LANG = {"quick": 1200, "thorough": 5000}
 FUEL = 10000000
 BIG = 1e99
